@@ -78,7 +78,8 @@ Section GenProofs.
         destruct Hw as [Hw1 [Hw2 Hw3]]. cbn [fst snd] in *.
         destruct pos; rel1.
       - destruct (sch SDumps) as [ft|]; [rel1|].
-        destruct new as [c|]; [apply write_rel; exact H | rel1].
+        destruct new as [c|]; [apply write_rel; exact H |].
+        destruct (e_late ev); [destruct (sch SWrite) as [ft|]; rel1 | rel1].
       - rel1.
     Qed.
 
@@ -244,7 +245,7 @@ Section GenProofs.
   (* lazy case split on the schedule entries the evaluation consults *)
   Ltac split_goal sch :=
     repeat match goal with
-           | |- context [sch ?s] => destruct (sch s) as [[[|] ?]|]; cbn [fkind fdisk]
+           | |- context [sch ?s] => destruct (sch s) as [?|]
            end.
   Ltac split_hyp sch H :=
     repeat match type of H with
@@ -270,8 +271,8 @@ Section GenProofs.
   Proof.
     intros sh ev new sch a b Hnew.
     unfold body2, body_tr, inner_tr, close_tr, write_tr, dumps_at, dumps_res, body_label.
-    destruct ev as [at_ en em ep ef].
-    destruct sh as [[| |]| |], new as [c|], ef as [d|]; try (exfalso; apply Hnew; reflexivity); clear Hnew; cbn;
+    destruct ev as [at_ en em ep ef el].
+    destruct sh as [[| |]| |], new as [c|], ef as [d|], el; try (exfalso; apply Hnew; reflexivity); clear Hnew; cbn;
       split_goal sch; cbn;
       (split; [reflexivity|]);
       (split; [repeat (apply Forall_cons || apply Forall_nil); cbn; repeat split; congruence|]);
@@ -770,7 +771,7 @@ Section GenProofs.
                                 = (es2, (Some old, b'), Raised KExc k) /\
                                 (k <> SBackup -> (sh = ShBuf DFirst -> k <> SDumps) -> b' = None) /\
                                 (f (bak A) = None -> b' = None)).
-    { rewrite HA. unfold_tr2. destruct ev as [at_ en em ep [dd|]].
+    { rewrite HA. unfold_tr2. destruct ev as [at_ en em ep [dd|] el].
       all: destruct k; try discriminate; destruct sh as [[| |]| |]; try congruence; destruct keep; cbn;
         eexists; eexists; (split; [reflexivity|]); split; intros; auto; try congruence;
         exfalso; match goal with Hx : _ = _ -> _ <> _ |- _ => apply Hx; reflexivity end. }
@@ -805,7 +806,7 @@ Section GenProofs.
     intros ev keep A f old HA.
     assert (H2 : exists es2, save_tr2 ShStream ev keep None no_fault (f A, f (bak A))
                              = (es2, (Some old, None), Raised KExc SDumps)).
-    { rewrite HA. unfold_tr2. destruct ev as [at_ en em ep [dd|]]; destruct keep; cbn; eexists; reflexivity. }
+    { rewrite HA. unfold_tr2. destruct ev as [at_ en em ep [dd|] [|]]; destruct keep; cbn; eexists; reflexivity. }
     destruct H2 as [es2 H2]. exact (save_g_by_view _ _ _ _ _ _ _ _ _ _ _ H2).
   Qed.
 End GenProofs.
@@ -813,7 +814,7 @@ End GenProofs.
 (** ** Non-vacuity and refutations (concrete file systems, by computation) *)
 Definition cx_A : path := s2p "a.json".
 Definition cx_f : fs N := upd cx_A (Some [1%N]) (fun _ => None).
-Definition cx_env : env N := mkEnv false None (Some [2%N]) (Some []) None.
+Definition cx_env : env N := mkEnv false None (Some [2%N]) (Some []) None false.
 
 (** the crash states of a fault-free run with a two-phase rename: nine states
     (initial, both names, moved, opened, serialised, half written, written but
